@@ -190,6 +190,36 @@ func corrC02(c *corrCtx) {
 			c.emit("color/tolin64", fmt.Sprintf("col %s tolin64 %08x %08x %08x %08x", s.name, fb(v[0]), fb(v[1]), fb(v[2]), fb(v[3])), fmt.Sprintf("%08x %08x %08x %08x", e.R, e.G, e.B, e.A))
 		}
 	}
+	// EncodeColor / LineariseColor on translucent premultiplied colours: the same result as encoding the
+	// linear colour r/a through the colour type
+	nt := 1500
+	if c.thorough() {
+		nt = 60000
+	}
+	for i := range spaces {
+		s := &spaces[i]
+		for k := 0; k < nt; k++ {
+			a := uint32(1 + r.intn(65535))
+			if k%4 == 0 {
+				a = uint32(r.pick(1, 2, 255, 256, 32768, 32769, 65000, 65534, 65535))
+			}
+			px := [3]uint32{uint32(r.intn(int(a) + 1)), uint32(r.intn(int(a) + 1)), uint32(r.intn(int(a) + 1))}
+			if k%5 == 0 {
+				px[0] = a
+			}
+			out := colorOpGo(s, "encode", px[0], px[1], px[2], a)
+			c.emit("color/encode-translucent", fmt.Sprintf("col %s encode %x %x %x %x", s.name, px[0], px[1], px[2], a), wordsHex(out))
+			al := float32(a) / 65535
+			fa := float32(a)
+			want := s.toRGBA64([3]float32{float32(px[0]) / fa, float32(px[1]) / fa, float32(px[2]) / fa}, al)
+			if uint64(want.R) != out[0] || uint64(want.G) != out[1] || uint64(want.B) != out[2] || uint64(want.A) != out[3] {
+				c.direct(fmt.Sprintf("C02/encode-translucent/%s/%04x%04x%04x%04x", s.name, px[0], px[1], px[2], a), "EncodeColor of a translucent premultiplied colour differs from encoding the linear colour channel/alpha through the colour type",
+					map[string]interface{}{"space": s.name, "pixel": []uint32{px[0], px[1], px[2], a}, "got": out, "want": []uint16{want.R, want.G, want.B, want.A}})
+			}
+			lo := colorOpGo(s, "linearise", px[0], px[1], px[2], a)
+			c.emit("color/linearise-translucent", fmt.Sprintf("col %s linearise %x %x %x %x", s.name, px[0], px[1], px[2], a), wordsHex(lo))
+		}
+	}
 	// clause (d) on the real code, per table entry: the code for index i lies within half a code
 	// (+ the float32 representation allowance) of OETF over the bucket [i-½, i+½]/N
 	const eta = 1.0 / (1 << 20)
@@ -370,6 +400,9 @@ func colorOpGo(s *space, kind string, a, b, cc, d uint32) []uint64 {
 	return nil
 }
 
+// row k of a 3x3 matrix
+func mulv3T(m [3][3]float64, k int) [3]float64 { return m[k] }
+
 func wordsHex(w []uint64) string {
 	s := ""
 	for i, x := range w {
@@ -498,6 +531,10 @@ func corrC14(c *corrCtx) {
 			lin := [3]float32{float32(r.f64()*3 - 0.5), float32(r.f64()*3 - 0.5), float32(r.f64()*3 - 0.5)}
 			if k%3 == 0 {
 				lin[r.intn(3)] = float32(1 + r.f64()*1e-3)
+			}
+			if k%11 == 5 {
+				// components that are not numbers at all (a colour that came out of 0/0 or an overflow upstream)
+				lin[r.intn(3)] = bf(uint32(r.pick(0x7fc00000, 0xffc00000, 0x7f800000, 0xff800000, 0x7f800001)))
 			}
 			al := float32(r.intn(65536)) / 65535
 			switch r.intn(6) {
@@ -902,6 +939,28 @@ func corrC03(c *corrCtx) {
 			c.emit("xyz/history", fmt.Sprintf("col %s fromxyz %08x %08x %08x 0", s.name, fb(q[0]), fb(q[1]), fb(q[2])), fmt.Sprintf("%08x %08x %08x", fb(back[0]), fb(back[1]), fb(back[2])))
 			prev = p
 		}
+		// triples on which a familiar linear functional vanishes exactly (luminance by Rec.709 / Rec.601 /
+		// this space's own Y row, the plain sum, a difference of two channels): out of range, mixed signs
+		func() {
+			yrow := mulv3T(ref, 1)
+			fs := [][3]float64{{0.2126, 0.7152, 0.0722}, {0.299, 0.587, 0.114}, yrow, {1, 1, 1}, {1, -1, 0}, {0.2126729, 0.7151522, 0.0721750}}
+			for _, f := range fs {
+				for _, k := range []float64{1, 0.5, -1, 2, 0.1} {
+					for _, tri := range [][3]float64{{f[2], 0, -f[0]}, {f[1], -f[0], 0}, {0, f[2], -f[1]}, {f[1] + f[2], -f[0], -f[0]}} {
+						p := [3]float32{float32(k * tri[0]), float32(k * tri[1]), float32(k * tri[2])}
+						x := s.toXYZ(p)
+						want := mulv3(ref, [3]float64{float64(p[0]), float64(p[1]), float64(p[2])})
+						if math.Abs(float64(x.X)-want[0]) > 5e-6 || math.Abs(float64(x.Y)-want[1]) > 5e-6 || math.Abs(float64(x.Z)-want[2]) > 5e-6 {
+							c.direct(fmt.Sprintf("C03/cancelling/%s/%08x%08x%08x", s.name, fb(p[0]), fb(p[1]), fb(p[2])), "ToXYZ is not the matrix applied to its argument on a triple where a linear functional (luminance, sum, difference) vanishes",
+								map[string]interface{}{"space": s.name, "in": p, "got": []float32{x.X, x.Y, x.Z}, "want": want})
+						}
+						c.emit("xyz/cancelling", fmt.Sprintf("col %s toxyz %08x %08x %08x 0", s.name, fb(p[0]), fb(p[1]), fb(p[2])), fmt.Sprintf("%08x %08x %08x", fb(x.X), fb(x.Y), fb(x.Z)))
+						back := s.fromXYZ(ciexyz.Color{X: p[0], Y: p[1], Z: p[2]})
+						c.emit("xyz/cancelling", fmt.Sprintf("col %s fromxyz %08x %08x %08x 0", s.name, fb(p[0]), fb(p[1]), fb(p[2])), fmt.Sprintf("%08x %08x %08x", fb(back[0]), fb(back[1]), fb(back[2])))
+					}
+				}
+			}
+		}()
 		// the library's own named constants (and multiples of them) as arguments: the conversions are
 		// functions of the value, whichever exported name it came from
 		for _, w := range []ciexyz.Color{ciexyz.D50, ciexyz.D65, ciexyz.ColorFromXYY(s.white)} {
